@@ -40,6 +40,23 @@ def rules(ctx, db):
                 ok = any(f.cfg.dominates(bb, b2) for b2, _ in calls(f, r"^compio_driver::sys::op::ext::RecvResultExt::map_addr$"))
                 ctx.ob("R3", "source-address-extracted:%s@%s" % (base, db.root_fn(f).name), ok,
                        "the datagram's source address (and control length / flags) travel to the caller (map_addr)", f)
+    if any(n.startswith("compio_net::") for n in db.adts):
+        R("R6", "ORD", "shutdown half-closes the *write* direction and nothing else; the split halves share one descriptor")
+        sh = [f for f in db.fns.values() if f.id.startswith("compio_net::socket::") and "shutdown" in f.id and calls(f, r"ShutdownSocket::<S>::new$")]
+        ctx.floor("R6", "Socket::shutdown bodies", len(sh), 1)
+        for f in sh:
+            t = calls(f, r"ShutdownSocket::<S>::new$")[0][1]
+            a = t["args"][1]
+            how = a.get("k", "")
+            if not how:
+                p = op_place(a)
+                for r_ in f.cfg.origins(p["l"]) if p else []:
+                    if r_[0] == "agg":
+                        how = r_[3]["r"].get("var", "")
+                    elif r_[0] == "const":
+                        how = " ".join(o.get("k", "") for o in r_[3].get("ops", []))
+            ctx.ob("R6", "shutdown-is-write-half-close", "Write" in how and "Both" not in how and "Read" not in how,
+                   "Socket::shutdown sends Shutdown::Write (found `%s`): the peer sees end-of-stream while this side can still read" % how, f)
     if any(n.startswith("compio_runtime::") for n in db.adts):
         pn = [f for f in db.fns.values() if re.search(r"^<compio_runtime::future::stream::SubmitMultiStream<F> as futures_core::stream::Stream>::poll_next$", f.name)]
         if not pn:
